@@ -20,7 +20,9 @@ import (
 	"fmt"
 	"io"
 	"math/big"
+	"os"
 	"reflect"
+	"strconv"
 	"testing"
 	"testing/iotest"
 
@@ -334,27 +336,20 @@ func c01PropBytes(st *vs.S) func(rt *rapid.T) {
 		c01GenValue(rt, pv.Elem())
 		item := c01Model(pv.Elem())
 		b := refrlp.Encode(item)
-		mode := rapid.SampledFrom([]string{"valid", "sloppy", "sloppy", "mutated", "mutated", "structural", "structural", "arbitrary"}).Draw(rt, "mode")
-		what := ""
+		mode := []string{"valid", "sloppy", "sloppy", "mutated", "mutated", "structural", "structural", "arbitrary"}[c01Pick(rt, "mode", 8)]
+		what, twice := "", false
 		switch mode {
 		case "sloppy":
 			var nonCanon bool
-			plain := item
-			if item.Raw != nil {
-				if sub, err := refrlp.Decode(item.Raw); err == nil {
-					plain = sub
-				}
-			}
-			b, nonCanon = c01SloppyEncode(rt, c01Unraw(plain))
+			b, nonCanon = c01SloppyEncode(rt, c01Unraw(item))
 			if !nonCanon {
 				mode = "valid"
 			}
 		case "mutated":
 			b, what = c01Mutate(rt, b)
 			if rapid.IntRange(0, 3).Draw(rt, "mut-twice") == 0 {
-				var w2 string
-				b, w2 = c01Mutate(rt, b)
-				what += "+" + w2
+				b, _ = c01Mutate(rt, b)
+				twice = true
 			}
 		case "structural":
 			var it2 refrlp.Item
@@ -374,7 +369,7 @@ func c01PropBytes(st *vs.S) func(rt *rapid.T) {
 			nAcc++
 		}
 		for i := 0; i < 3; i++ {
-			other := c01Family[rapid.IntRange(0, len(c01Family)-1).Draw(rt, "other-type")]
+			other := c01Family[c01Pick(rt, "other-type", len(c01Family))]
 			if c01CheckDecode(rt, other, b) {
 				nAcc++
 			}
@@ -388,6 +383,12 @@ func c01PropBytes(st *vs.S) func(rt *rapid.T) {
 		}
 		if what != "" {
 			c.Class("mut:%s", what)
+		}
+		if twice {
+			c.Class("mut:two-mutations")
+		}
+		if accepted && mode == "sloppy" {
+			c.Class("accepted:sloppy-inside-raw-position")
 		}
 		items := 0
 		if it, err := refrlp.Decode(b); err == nil {
@@ -759,7 +760,7 @@ func c01RefSplitAll(b []byte) ([][]byte, error) {
 func c01PropRaw(st *vs.S) func(rt *rapid.T) {
 	return func(rt *rapid.T) {
 		c := c01NewCase(st)
-		mode := rapid.SampledFrom([]string{"valid", "sequence", "sloppy", "sloppy", "mutated", "mutated", "arbitrary", "forged-header"}).Draw(rt, "mode")
+		mode := []string{"valid", "sequence", "sloppy", "sloppy", "mutated", "mutated", "arbitrary", "forged-header"}[c01Pick(rt, "mode", 8)]
 		var b []byte
 		item := c01GenItem(rt, 3)
 		switch mode {
@@ -878,7 +879,6 @@ var c01SmallTypes = []reflect.Type{
 }
 
 func TestVerifC01Exhaustive(t *testing.T) {
-	vs.OnlyShard0(t)
 	st := vs.New("C01", t)
 	check := func(b []byte, label string) {
 		c := st.Case()
@@ -896,6 +896,43 @@ func TestVerifC01Exhaustive(t *testing.T) {
 			c.Sample(true, func() any { return map[string]any{"input": c01Hex(b), "refrlp_class": cls.String()} })
 		}
 	}
+	// The 3-byte enumeration of the thorough tier is split over the shards by first
+	// byte (VERIF_C01_SHARDS = number of shards, set in checks/C01.json); everything
+	// else runs in shard 0.
+	nshards := 1
+	if v, err := strconv.Atoi(os.Getenv("VERIF_C01_SHARDS")); err == nil && v > 1 && vs.Thorough() {
+		nshards = v
+	}
+	if vs.Shard() >= nshards {
+		t.Skip("no enumeration part for this shard")
+	}
+	if vs.Thorough() {
+		n := 0
+		for f := 0; f < 256; f++ {
+			if f%nshards != vs.Shard() {
+				continue
+			}
+			n++
+			for x := 0; x < 65536; x++ {
+				check([]byte{byte(f), byte(x >> 8), byte(x)}, "len3")
+			}
+		}
+		st.Exhaustive(fmt.Sprintf("all 3-byte strings whose first byte is congruent to %d mod %d (%d first bytes; the %d shards together cover every 3-byte string)", vs.Shard(), nshards, n, nshards))
+	} else {
+		// quick: all 3-byte strings for four first bytes, one in seven for 16 other header tags
+		firsts := []byte{0x00, 0x7f, 0x80, 0x81, 0x82, 0x83, 0xb7, 0xb8, 0xb9, 0xba, 0xbf, 0xc0, 0xc1, 0xc2, 0xc3, 0xf7, 0xf8, 0xf9, 0xfa, 0xff}
+		for _, f := range firsts {
+			full := f == 0x82 || f == 0xc2 || f == 0xb8 || f == 0xf8
+			for x := 0; x < 65536; x++ {
+				if full || x%7 == 0 {
+					check([]byte{f, byte(x >> 8), byte(x)}, "len3")
+				}
+			}
+		}
+	}
+	if vs.Shard() != 0 {
+		return
+	}
 	// every input of length 0, 1, 2
 	check(nil, "len0")
 	for x := 0; x < 256; x++ {
@@ -904,30 +941,7 @@ func TestVerifC01Exhaustive(t *testing.T) {
 	for x := 0; x < 65536; x++ {
 		check([]byte{byte(x >> 8), byte(x)}, "len2")
 	}
-	note := "all byte strings of length 0..2"
-	// every 3-byte input whose first byte is a header tag of interest, and (thorough) all 3-byte inputs
-	firsts := []byte{0x00, 0x7f, 0x80, 0x81, 0x82, 0x83, 0xb7, 0xb8, 0xb9, 0xba, 0xbf, 0xc0, 0xc1, 0xc2, 0xc3, 0xf7, 0xf8, 0xf9, 0xfa, 0xff}
-	if vs.Thorough() {
-		firsts = firsts[:0]
-		for x := 0; x < 256; x++ {
-			firsts = append(firsts, byte(x))
-		}
-		note = "all byte strings of length 0..3"
-	} else {
-		note += fmt.Sprintf(" and all 3-byte strings starting with one of %d header tags", len(firsts))
-	}
-	for _, f := range firsts {
-		for x := 0; x < 65536; x++ {
-			if !vs.Thorough() && x%7 != 0 && f != 0x82 && f != 0xc2 && f != 0xb8 && f != 0xf8 {
-				continue
-			}
-			check([]byte{f, byte(x >> 8), byte(x)}, "len3")
-		}
-	}
-	if !vs.Thorough() {
-		note = "all byte strings of length 0..2 (3-byte strings: all with first byte 82/c2/b8/f8, one in seven for 16 other tags)"
-	}
-	st.Exhaustive(note)
+	st.Exhaustive("all byte strings of length 0..2; quick tier additionally all 3-byte strings with first byte 82/c2/b8/f8")
 
 	// systematic long-form headers: every tag b8..bf / f8..ff x declared length x
 	// length-of-length, with payload exact / one short / one extra
